@@ -647,7 +647,24 @@ pub struct GFault {
 
 fn faults_of(enc: &[u8], ann: &[rc::Ann], wire: rc::Proto, flips: bool) -> Vec<GFault> {
     let mut out = Vec::new();
-    for n in 0..enc.len() {
+    // long encodings (stretched payloads): every truncation inside the first and last 256 bytes and
+    // around every annotated position (headers, lengths, counts), every (len/512)th in between -
+    // the fault list is materialised, and all positions x all lengths would not fit in memory
+    let long = enc.len() > 1500;
+    let mut cuts: Vec<usize> = if long {
+        let mut c: Vec<usize> = (0..256).chain(enc.len() - 256..enc.len()).collect();
+        for a in ann {
+            c.extend([a.off.saturating_sub(1), a.off, a.off + 1, a.off + a.len, a.off + a.len + 1]);
+        }
+        c.extend((0..enc.len()).step_by(enc.len() / 512 + 1));
+        c
+    } else {
+        (0..enc.len()).collect()
+    };
+    cuts.retain(|n| *n < enc.len());
+    cuts.sort();
+    cuts.dedup();
+    for n in cuts {
         out.push(GFault { kind: "trunc".into(), bytes: enc[..n].to_vec(), strict_prefix: true });
     }
     for a in ann {
@@ -666,7 +683,18 @@ fn faults_of(enc: &[u8], ann: &[rc::Ann], wire: rc::Proto, flips: bool) -> Vec<G
         }
     }
     if flips {
-        for i in 0..enc.len() {
+        let positions: Vec<usize> = if long {
+            let mut c: Vec<usize> = (0..128).chain(enc.len() - 128..enc.len()).collect();
+            for a in ann {
+                c.extend(a.off.saturating_sub(1)..(a.off + a.len + 1).min(enc.len()));
+            }
+            c.sort();
+            c.dedup();
+            c
+        } else {
+            (0..enc.len()).collect()
+        };
+        for i in positions {
             for bit in 0..8 {
                 let mut b = enc.to_vec();
                 b[i] ^= 1 << bit;
